@@ -145,6 +145,16 @@ class World:
                 quads = [v.triple(q) + (self.graphs[q[3]],) for q in qs]
                 for n in sorted({q[3] for q in qs}):
                     self.graphs[n].addN(quads)
+        elif op == "addN_view":
+            # the bulk interface of one graph view, handed quads that name views of other graphs of the same store as well
+            tgt = self.view(e["g"])
+            quads = [v.triple(q) + ((self.ctx(q[3]) if (i + len(e["qs"])) % 2 else self.view(q[3])),) for i, q in enumerate(e["qs"])]
+            if e.get("how") == "batch":
+                from rdflib.graph import BatchAddGraph
+                with BatchAddGraph(tgt, batch_size=2, batch_addn=True) as b:
+                    b.addN(quads)
+            else:
+                tgt.addN(quads)
         elif op == "remove":
             pat = v.triple(e["pat"])
             if e["g"] == "*":
